@@ -7,6 +7,7 @@ import (
 	"io"
 	"regexp"
 	"sync"
+	"sync/atomic"
 	"time"
 
 	"github.com/scrapli/scrapligo/logging"
@@ -111,7 +112,7 @@ type Channel struct {
 
 	Q              *util.Queue
 	Errs           chan error
-	readLoopExited bool
+	readLoopExited atomic.Bool
 	// readLoopDone is closed when the read goroutine started by Open has returned.
 	readLoopDone chan struct{}
 
@@ -209,7 +210,7 @@ func (c *Channel) Close() error {
 	ch := make(chan struct{})
 
 	verifhook.Point("chan.close.flag")
-	if !c.readLoopExited {
+	if !c.readLoopExited.Load() {
 		go func() {
 			defer close(ch)
 
